@@ -34,6 +34,8 @@ type scenario struct {
 	Style   string   `json:"style"`
 	Cfg     string   `json:"cfg"`
 	KV      string   `json:"kv"`
+	NK      int      `json:"nk"`
+	Known   string   `json:"known"`
 	Tampers []string `json:"tampers"`
 	Accept  bool     `json:"accept"`
 	Rep     struct {
@@ -79,6 +81,9 @@ func (s *scenario) scenarioKey() string {
 	if s.DS == "invalid" {
 		k += "/destname=invalid"
 	}
+	if s.NK == 2 {
+		k += "/keys=2/known=" + s.Known
+	}
 	if s.OSP == "mixed" {
 		k += "/originspelling=mixed"
 	}
@@ -100,7 +105,7 @@ func replay(seed int64, raw json.RawMessage) (res hx.Result) {
 	}
 	p := newPicker(seed, raw)
 	sort.Strings(s.Tampers)
-	nt := fmt.Sprintf("%s|%s|%s|%s|%s|os=%s/%s|ds=%s/%s|%s|%v", strings.Join(s.Tampers, "+"), s.Body, s.Down, s.Cfg, s.KV, s.OS, s.OSP, s.DS, s.DSP, s.Style, s.Accept)
+	nt := fmt.Sprintf("%s|%s|%s|%s|%s|nk=%d/%s|os=%s/%s|ds=%s/%s|%s|%v", strings.Join(s.Tampers, "+"), s.Body, s.Down, s.Cfg, s.KV, s.NK, s.Known, s.OS, s.OSP, s.DS, s.DSP, s.Style, s.Accept)
 	fail := func(stage, what string, want, got interface{}) hx.Result {
 		return hx.Result{OK: false, NT: nt, Key: "C13/" + stage + "/" + s.scenarioKey(), What: what, Want: want, Got: got}
 	}
@@ -134,6 +139,7 @@ func replay(seed int64, raw json.RawMessage) (res hx.Result) {
 		body = bodyNonUTF8
 	}
 	pub, priv := keyFrom("origin")
+	pubB, privB := keyFrom("origin next") // the origin's second key (key rotation)
 	pubOther, privOther := keyFrom("other")
 	sendable := s.Body != "nonutf8" && !strings.HasPrefix(s.OS, "inv") && s.DS != "invalid"
 
@@ -157,6 +163,14 @@ func replay(seed int64, raw json.RawMessage) (res hx.Result) {
 		}
 		return hx.Result{OK: true, NT: "unsendable|" + s.Body + "|" + s.OS + "|" + s.DS}
 	}
+	if s.NK == 2 {
+		if err := fr.Sign(spec.ServerName(origin), gmsl.KeyID(nextKeyID), privB); err != nil {
+			if sendable {
+				return fail("send", "second Sign failed: "+err.Error(), "sent", err.Error())
+			}
+			return hx.Result{OK: true, NT: "unsendable|" + s.Body + "|" + s.OS + "|" + s.DS}
+		}
+	}
 	hr, err := fr.HTTPRequest()
 	if err != nil {
 		if sendable {
@@ -175,16 +189,29 @@ func replay(seed int64, raw json.RawMessage) (res hx.Result) {
 	if err != nil {
 		machinery(err.Error())
 	}
-	auth, ok := w.get("Authorization")
-	if !ok {
-		return fail("send", "HTTPRequest of a signed request wrote no Authorization header", "header", "none")
+	// every signature goes on the wire: one X-Matrix header per key ID the origin signed with
+	auths := w.getAll("Authorization")
+	if len(auths) != s.NK {
+		return fail("send-headers", fmt.Sprintf("the origin signed with %d key ID(s) but HTTPRequest wrote %d Authorization header(s): %q", s.NK, len(auths), auths), s.NK, len(auths))
 	}
-	x, err := parseCanon(auth)
-	if err != nil {
-		if sendable {
-			return fail("send", err.Error(), "canonical header", auth)
+	var x, xb *xmatrix // the header of the first key and of the second key
+	for _, a := range auths {
+		h, err := parseCanon(a)
+		if err != nil {
+			if sendable {
+				return fail("send", err.Error(), "canonical header", a)
+			}
+			return hx.Result{OK: true, NT: "unsendable|" + s.Body + "|" + s.OS + "|" + s.DS}
 		}
-		return hx.Result{OK: true, NT: "unsendable|" + s.Body + "|" + s.OS + "|" + s.DS}
+		switch *h.key {
+		case keyID:
+			x = h
+		case nextKeyID:
+			xb = h
+		}
+	}
+	if x == nil || (s.NK == 2) != (xb != nil) {
+		return fail("send-headers", fmt.Sprintf("signed with key IDs %s%s but the Authorization headers are %q", keyID, map[bool]string{true: " and " + nextKeyID}[s.NK == 2], auths), s.NK, auths)
 	}
 	signedBody := append([]byte(nil), w.body...)
 
@@ -304,15 +331,26 @@ func replay(seed int64, raw json.RawMessage) (res hx.Result) {
 			machinery("unknown tampering " + t)
 		}
 	}
+	if xb != nil {
+		// scheme, origin and destination tamperings rewrite every X-Matrix header; key / signature tamperings the first
+		xb.scheme, xb.origin, xb.dest = x.scheme, x.origin, x.dest
+	}
 	w.del("Authorization")
 	w.del("User-Agent")
 	if bearer {
 		w.headers = append(w.headers, hline{"Authorization", "Bearer c2VjcmV0"})
 	}
 	if !nohdr {
+		if xb != nil && p.n("hdrorder", 2) == 0 {
+			w.headers = append(w.headers, hline{"Authorization", xb.render(s.Style)})
+			xb = nil
+		}
 		w.headers = append(w.headers, hline{"Authorization", x.render(s.Style)})
 		if dup {
 			w.headers = append(w.headers, hline{"Authorization", x.render(s.Style)})
+		}
+		if xb != nil {
+			w.headers = append(w.headers, hline{"Authorization", xb.render(s.Style)})
 		}
 		if second {
 			y := *x
@@ -356,21 +394,37 @@ func replay(seed int64, raw json.RawMessage) (res hx.Result) {
 		db.m[gmsl.PublicKeyLookupRequest{ServerName: spec.ServerName(name), KeyID: gmsl.KeyID(id)}] = r
 	}
 	var zero time.Time
-	switch s.KV {
-	case "valid":
-		put(origin, keyID, pub, now.Add([]time.Duration{hour, 2 * hour, 24 * hour, 6 * 24 * hour}[p.n("kvd", 4)]), zero)
-	case "validfar":
-		put(origin, keyID, pub, now.Add([]time.Duration{8 * 24 * hour, 30 * 24 * hour, 365 * 24 * hour}[p.n("kvd", 3)]), zero)
-	case "lapsed":
-		put(origin, keyID, pub, now.Add(-[]time.Duration{hour, 24 * hour, 30 * 24 * hour}[p.n("kvd", 3)]), zero)
-	case "expired":
-		put(origin, keyID, pub, zero, now.Add(-[]time.Duration{hour, 30 * 24 * hour}[p.n("kvd", 2)]))
-	case "unknown":
+	day := 24 * hour
+	knowsFirst := s.Known == "both" || s.Known == "first"
+	knowsSecond := s.NK == 2 && (s.Known == "both" || s.Known == "second")
+	switch {
+	case !knowsFirst:
+		// no record of the first key
+	case s.KV == "valid":
+		put(origin, keyID, pub, now.Add([]time.Duration{hour, 2 * hour, day, 6 * day}[p.n("kvd", 4)]), zero)
+	case s.KV == "validfar":
+		put(origin, keyID, pub, now.Add([]time.Duration{8 * day, 30 * day, 365 * day}[p.n("kvd", 3)]), zero)
+	case s.KV == "lapsed":
+		put(origin, keyID, pub, now.Add(-[]time.Duration{hour, day, 30 * day}[p.n("kvd", 3)]), zero)
+	case s.KV == "expired": // expired_ts in the past, no valid_until_ts
+		put(origin, keyID, pub, zero, now.Add(-[]time.Duration{hour, 30 * day}[p.n("kvd", 2)]))
+	case s.KV == "expboth": // expired_ts in the past although valid_until_ts is in the future
+		put(origin, keyID, pub, now.Add([]time.Duration{2 * hour, day, 6 * day}[p.n("kvd", 3)]), now.Add(-[]time.Duration{hour, 30 * day}[p.n("kve", 2)]))
+	case s.KV == "expfuture": // expired_ts in the future, with or without valid_until_ts
+		vu := zero
+		if p.n("kvd", 2) == 0 {
+			vu = now.Add(day)
+		}
+		put(origin, keyID, pub, vu, now.Add([]time.Duration{hour, 2 * day}[p.n("kve", 2)]))
+	case s.KV == "unknown":
 		put(origin, "ed25519:elsewhere", pub, now.Add(2*hour), zero)
-	case "wrongkey":
+	case s.KV == "wrongkey":
 		put(origin, keyID, pubOther, now.Add(2*hour), zero)
 	default:
 		machinery("unknown key validity " + s.KV)
+	}
+	if knowsSecond {
+		put(origin, nextKeyID, pubB, now.Add(2*hour), zero)
 	}
 	put(otherOrigin, keyID, pubOther, now.Add(2*hour), zero)
 	if keyOtherKnown {
@@ -399,8 +453,8 @@ func replay(seed int64, raw json.RawMessage) (res hx.Result) {
 		return fail("result", fmt.Sprintf("VerifyHTTPRequest returned request=%v with HTTP status %d", got != nil, resp.Code), "request iff 200", resp.Code)
 	}
 	desc := func() string {
-		return fmt.Sprintf("signed %s %q origin=%q destination=%q body=%q key=%s; tamperings %v; transmitted %q; receiver default name %q, local-name function=%v, key database %s",
-			strings.ToUpper(s.M), uri, origin, dest, clip(string(signedBody)), keyID, s.Tampers, clip(string(w.bytes())), primary, isLocal != nil, s.KV)
+		return fmt.Sprintf("signed %s %q origin=%q destination=%q body=%q key=%s%s; tamperings %v; transmitted %q; receiver default name %q, local-name function=%v, key database %s",
+			strings.ToUpper(s.M), uri, origin, dest, clip(string(signedBody)), keyID, map[bool]string{true: " and " + nextKeyID + " (receiver knows: " + s.Known + ")"}[s.NK == 2], s.Tampers, clip(string(w.bytes())), primary, isLocal != nil, s.KV)
 	}
 	if accepted != s.Accept {
 		return fail(map[bool]string{true: "refused-by-spec-accepted-by-code", false: "accepted-by-spec-refused-by-code"}[accepted],
